@@ -87,9 +87,20 @@ def trimSpace (s : Bytes) : Bytes := trimRight (trimLeft s)
 
 /-! ### Operator.match and nextOperator -/
 
-/-- "Hack to allow negative exponents": the two bytes before the position are a digit and `e` -/
+/-- a byte that can be part of a name (`endsNumericLiteral`: letters, `_`, `$`, `#`, bytes ≥ 0x80) -/
+def isNameByte (c : Nat) : Bool :=
+  c == 95 || c == 36 || c == 35 || 128 ≤ c || (97 ≤ c && c ≤ 122) || (65 ≤ c && c ≤ 90)
+
+/-- `endsNumericLiteral(expression, last)` on the reversed prefix that starts with the byte at `last`: walking back over
+    digits and decimal points reaches the start of the expression or a byte that cannot be part of a name -/
+def endsNumeric : Bytes → Bool
+  | [] => true
+  | ch :: t => if isDigit ch || ch == 46 then endsNumeric t else !isNameByte ch
+
+/-- "Hack to allow negative exponents": the two bytes before the position are a digit and `e`, and the digit is the
+    end of a numeric literal (in a name such as `$a1e` the `e` is no exponent marker) -/
 def expHack : Bytes → Bool
-  | 101 :: d :: _ => isDigit d
+  | 101 :: d :: t => isDigit d && endsNumeric (d :: t)
   | _ => false
 
 /-- `Operator.match(expression, start, len(expression))` at the position `(pre, rest)` -/
